@@ -5,6 +5,8 @@
 #include <format>
 #endif
 
+#include <charconv>
+
 #include "ccl/lang/TextEnvironment.h"
 #include "ccl/lang/LexicalTerm.h"
 
@@ -130,10 +132,14 @@ Reference Reference::Parse(std::string_view refStr) {
     return Reference{ EntityRef{ std::string{ tokens.at(EntityRef::TR_ENTITY) }, std::move(form) } };
   }
   case ReferenceType::collaboration: {
-    return Reference{ 
-      CollaborationRef{ std::string{ tokens.at(CollaborationRef::CR_TEXT) },
-      static_cast<int16_t>(stoi(std::string{ tokens.at(CollaborationRef::CR_OFFSET) })) } 
-    };
+    const auto offsetText = tokens.at(CollaborationRef::CR_OFFSET);
+    int16_t offset{};
+    const auto* last = offsetText.data() + offsetText.size();
+    const auto [ptr, ec] = std::from_chars(offsetText.data(), last, offset);
+    if (ec != std::errc{} || ptr != last) {
+      return {};
+    }
+    return Reference{ CollaborationRef{ std::string{ tokens.at(CollaborationRef::CR_TEXT) }, offset } };
   }
   default:
   case ReferenceType::invalid: return {};
